@@ -43,6 +43,13 @@ Two further phases (own case formats, run first):
      Contract: the result on the TEXT; an EncodingException / EncodingError refusal is accepted except for (alphabet, base) pairs,
      which the library supports.  Signatures `xenc.<F|R>.<op>:<alphabet|base>-vs-<alphabet|base>:<silent-wrong-result | refused |
      exception:<type>>`.
+  storage - the same one- and two-step programs (contract, oracle and operation sets unchanged) on base objects whose raw codes are
+     STORED in another integer dtype than the uint8 of as_encoded_array: int8, uint8, int16, uint16, int32, int64 (+ uint32, uint64 in
+     the thorough tier), built by EncodedArray(np.array(codes, dtype), encoding) [+ EncodedRaggedArray(flat, lengths)], by
+     np.concatenate([uint8 object, object of the dtype]) (NumPy promotes the result) and by EncodedArray(np.where(mask, code, code),
+     encoding) (default int; texts over two symbols - how bionumpy.alignments builds strand columns).  Every encoding, flat and ragged.
+     A failure keeps the signature of the same program on the uint8 object when that fails in the same way; otherwise
+     `storage:<constructor|concatenate|where>:<one-byte-int|wide-int>:<step signature as above>`.
 Not exercised: column boolean-mask / fancy-list indexing a[:, [..]] (npstructures raises for every input, i.e. not a
   supported operation), broadcasting assignments of a shorter string, list-of-str values in assignments, programs
   longer than 3, rows > 4, row length > 3, lower-case input (C06), StringArray operations other than the conversion.
@@ -937,7 +944,7 @@ GATHER = {"rm", "rf", "cm", "copy", "cat", "join", "rsl", "m", "f", "fci", "spli
 
 # regions of the scope that fail as a whole on the unchanged tree get ONE signature (README: "Failures on the unchanged tree")
 COLLAPSE = {"R.cs:negstep-nonneg-start-on-empty-row", "R.rcs:negstep-nonneg-start-on-empty-row",
-            "R.column-int-index:after-stepped-colslice"}
+            "R.column-int-index:after-stepped-colslice", "R.sa:raw-codes-wider-than-one-byte"}
 
 
 def classify(kind, op, value, prev=None):
@@ -971,8 +978,71 @@ def signature(step, failtype):
     return "%s:%s" % (step, failtype)
 
 
-def build_base(ctx, kind, base, copy):
-    a = ctx.arr(base)
+STORE_DTYPES_QUICK = ["int8", "uint8", "int16", "uint16", "int32", "int64"]
+STORE_DTYPES_THOROUGH = STORE_DTYPES_QUICK + ["uint32", "uint64"]
+
+
+def store_dtype(store):
+    """the integer dtype the raw codes of the base object end up in"""
+    import numpy as np
+    if store["how"] == "where":
+        return np.dtype(int)
+    if store["how"] == "concatenate":
+        return np.result_type(np.uint8, np.dtype(store["dtype"]))
+    return np.dtype(store["dtype"])
+
+
+def store_prefix(store):
+    if store is None:
+        return ""
+    return "storage:%s:%s:" % (store["how"], "one-byte-int" if store_dtype(store).itemsize == 1 else "wide-int")
+
+
+def store_refs(store):
+    """the simpler ways to build the same base value, used only to ATTRIBUTE a failure (never as an oracle): the constructor with the
+    standard uint8 object of as_encoded_array, then the constructor with the dtype the codes end up in"""
+    refs = [None]
+    if store["how"] != "constructor":
+        refs.append({"how": "constructor", "dtype": store_dtype(store).name})
+    return refs
+
+
+def build_stored(ctx, kind, base, store):
+    """the base value as an encoded object whose raw codes are STORED in a given integer dtype (legal: the constructors accept
+    any integer array; the library itself builds such objects, e.g. the strand column of bionumpy.alignments).
+      constructor  - EncodedArray(np.array(codes, dtype), encoding) [, EncodedRaggedArray(that, row lengths)]
+      concatenate  - np.concatenate([as_encoded_array(first half) (uint8), constructor(second half, dtype)]): NumPy promotion
+      where        - EncodedArray(np.where(mask, code_a, code_b), encoding): default-int codes (texts over <= 2 symbols)"""
+    import numpy as np
+    from bionumpy.encoded_array import EncodedArray, EncodedRaggedArray
+    how = store["how"]
+
+    def flat_of(text, dt):
+        return EncodedArray(np.array([ctx.codes[c] for c in text], dtype=dt), ctx.enc)
+
+    def obj_of(v, dt):
+        if kind == "F":
+            return flat_of(v, dt)
+        return EncodedRaggedArray(flat_of("".join(v), dt), np.array([len(r) for r in v], dtype=int))
+    if how == "constructor":
+        return obj_of(base, np.dtype(store["dtype"]))
+    if how == "concatenate":
+        h = len(base) // 2
+        return np.concatenate([ctx.arr(base[:h]), obj_of(base[h:], np.dtype(store["dtype"]))])
+    if how == "where":
+        text = base if kind == "F" else "".join(base)
+        syms = sorted(set(text)) or [ctx.alph[0]]
+        assert len(syms) <= 2, "generator: 'where' storage needs a text over <= 2 symbols"
+        a, b = syms[0], syms[-1]
+        flat = EncodedArray(np.where(np.array([c == a for c in text], dtype=bool), ctx.codes[a], ctx.codes[b]), ctx.enc)
+        if kind == "F":
+            return flat
+        return EncodedRaggedArray(flat, np.array([len(r) for r in base], dtype=int))
+    raise KeyError(how)
+
+
+def build_base(ctx, kind, base, copy, store=None):
+    a = ctx.arr(base) if store is None else build_stored(ctx, kind, base, store)
     if copy:
         a = a.copy()
     return a
@@ -1012,7 +1082,7 @@ MODEL = {"R": model_R, "F": model_F, "M": model_M}
 REAL = {"R": real_R, "F": real_F, "M": real_M}
 
 
-def execute(ctx, kind, base, copy, prog, check_at):
+def execute(ctx, kind, base, copy, prog, check_at, store=None):
     """run one program from scratch on the real classes; the contract is evaluated after the steps whose number is in
     `check_at` (0 = construction).  Steps that are not checked are not looked at at all: decoding an EncodedRaggedArray
     flattens a lazy view in place, so observing an intermediate object would erase the history the property is about.
@@ -1022,16 +1092,20 @@ def execute(ctx, kind, base, copy, prog, check_at):
     si = -1
     prev = []
     try:
-        obj = build_base(ctx, kind, base, copy)
+        obj = build_base(ctx, kind, base, copy, store)
         if 0 in check_at:
             bad = check_value(ctx, kind, obj, value)
             if bad:
-                return (step, bad[0], "step 0 (as_encoded_array): " + bad[1]), step
+                return (step, bad[0], "step 0 (%s): " % ("as_encoded_array" if store is None else "storage %r" % (store,)) + bad[1]), step
         for si, op in enumerate(prog):
             step = classify(kind, op, value, prev)
             if op[0] == "eq_self" and kind == "M" and ctx.name == "strand":
                 # StrandEncoding is a FlatAlphabetEncoding: its _encode ravels by design, so a 2-D operand of another encoding loses its shape
                 step += ":flat-alphabet-encoding"
+            if store is not None and step == "R.sa" and obj.raw().dtype.itemsize > 1:
+                # string_array(ragged) of raw codes wider than one byte (as stored, or promoted by an earlier np.concatenate with
+                # such an object): fails as a region on the unchanged tree
+                step += ":raw-codes-wider-than-one-byte"
             if is_obs(kind, op):
                 exp, got = OBS[kind](ctx, obj, value, op)
                 if exp != got:
@@ -1050,28 +1124,58 @@ def execute(ctx, kind, base, copy, prog, check_at):
     return None, step
 
 
-def run_program(col, ctx, kind, base, copy, prog, count=True):
-    """-> True if the contract held.  The program is first run checking only its last step (intermediate objects untouched).
-    On a failure it is re-run with the contract evaluated after every step and the failure is attributed to the first
-    failing step; a failure that does not show then (it needs an un-observed intermediate object) is attributed to the
-    first step j at which it shows when only step j is checked, with the suffix ':unobserved-history'."""
-    case = {"enc": ctx.name, "kind": kind, "base": base, "copy": copy, "prog": prog}
+def diagnose(ctx, kind, base, copy, prog, store=None):
+    """-> (class of the last step executed, None | (signature, message)).  The program is first run checking only its last step
+    (intermediate objects untouched).  On a failure it is re-run with the contract evaluated after every step and the failure is
+    attributed to the first failing step; a failure that does not show then (it needs an un-observed intermediate object) is
+    attributed to the first step j at which it shows when only step j is checked, with the suffix ':unobserved-history'."""
     n = len(prog)
-    bad, last = execute(ctx, kind, base, copy, prog, {n})
-    if count:
-        col.case(case, nontrivial=bool(base) and any(base), contract=last.split(":")[0])
+    bad, last = execute(ctx, kind, base, copy, prog, {n}, store)
     if bad is None:
-        return True
-    bad2, _ = execute(ctx, kind, base, copy, prog, set(range(n + 1)))
+        return last, None
+    bad2, _ = execute(ctx, kind, base, copy, prog, set(range(n + 1)), store)
     if bad2 is not None:
-        col.fail(signature(bad2[0], bad2[1]), case, bad2[2])
-        return False
+        return last, (signature(bad2[0], bad2[1]), bad2[2])
     for j in range(1, n + 1):
-        bad3, _ = execute(ctx, kind, base, copy, prog[:j], {j})
+        bad3, _ = execute(ctx, kind, base, copy, prog[:j], {j}, store)
         if bad3 is not None:
             bad = bad3
             break
-    col.fail(signature(bad[0], bad[1]) + ":unobserved-history", case, bad[2] + "  (holds when every intermediate object is decoded first)")
+    return last, (signature(bad[0], bad[1]) + ":unobserved-history", bad[2] + "  (holds when every intermediate object is decoded first)")
+
+
+def _storage_sig(store, sig):
+    if store is None:
+        return sig
+    if ":raw-codes-wider-than-one-byte:" in sig:
+        return "storage:" + sig      # a region named by the width of the codes at the failing step: however the base was built
+    return store_prefix(store) + sig
+
+
+def run_program(col, ctx, kind, base, copy, prog, count=True, store=None):
+    """-> True if the contract held (see diagnose).  `store` (None = the uint8 object of as_encoded_array) selects how the raw codes
+    of the base object are stored (build_stored).  A failure of a storage case gets the signature of the same program on the
+    simplest storage that fails in the same way (so a defect that does not depend on the storage keeps its signature), else its own
+    `storage:<how>:<one-byte-int|wide-int>:<step>:<failure>`."""
+    case = {"enc": ctx.name, "kind": kind, "base": base, "copy": copy, "prog": prog}
+    if store is not None:
+        case["store"] = store
+    last, bad = diagnose(ctx, kind, base, copy, prog, store)
+    if count:
+        col.case(case, nontrivial=bool(base) and any(base), contract=("" if store is None else "storage.") + last.split(":")[0])
+    if bad is None:
+        return True
+    sig, msg = bad
+    if store is not None:
+        for ref in store_refs(store):
+            _, rbad = diagnose(ctx, kind, base, copy, prog, ref)
+            if rbad is not None and rbad[0] == sig:
+                sig = _storage_sig(ref, sig)
+                break
+        else:
+            sig = _storage_sig(store, sig)
+            msg += "  (raw codes stored as %s via %s; holds for the uint8 object of as_encoded_array)" % (store_dtype(store).name, store["how"])
+    col.fail(sig, case, msg)
     return False
 
 
@@ -1581,6 +1685,42 @@ def plan(tier):
     return P
 
 
+def fill2(ctx, sh, salt=0):
+    """rows of the given lengths over the first two symbols of the alphabet (both occur when there are >= 2 characters)"""
+    rows, p = [], salt
+    for L in sh:
+        rows.append("".join(ctx.alph[((p + k) * (p + k + 1) // 2) % 2] for k in range(L)))
+        p += L
+    return rows
+
+
+def storage_plan(tier):
+    """phases over base objects whose raw codes are stored in another integer dtype than the uint8 of as_encoded_array:
+    (label, encodings, kind, shapes, two-symbol bases?, stores, copy flags, depth, last level, sample per base)"""
+    q = tier == "quick"
+    dts = STORE_DTYPES_QUICK if q else STORE_DTYPES_THOROUGH
+    ctor = [{"how": "constructor", "dtype": d} for d in dts]
+    cat = [{"how": "concatenate", "dtype": d} for d in dts]
+    where = [{"how": "where", "dtype": "default"}]
+    few = [{"how": "constructor", "dtype": d} for d in (("int64",) if q else ("int8", "uint16", "int64"))]
+    lvl = "core" if q else "mid"
+    flat = [(L,) for L in range(0, 5 if q else 7)]
+    P = []
+    P.append(("storage-d1", ["base"], "R", [(), (0,), (2,), (0, 0), (3, 1), (0, 2), (2, 0, 3), (1, 0, 0, 2)] if q else REPR_SHAPES, False, ctor, [False], 1, lvl, None))
+    P.append(("storage-d1", ["dna"], "R", [(0, 2), (2, 0, 3)] if q else REPR_SHAPES, False, ctor, [False], 1, lvl, None))
+    P.append(("storage-d1-flat", ENCS_MAIN, "F", flat, False, ctor, [True] if q else [False, True], 1, lvl, None))
+    P.append(("storage-d1-concatenate", ENCS_MAIN, "R", [(2,), (0, 2), (3, 1), (2, 0, 3)] if q else REPR_SHAPES, False, cat, [False], 1, "core", None))
+    P.append(("storage-d1-concatenate-flat", ENCS_MAIN, "F", flat, False, cat, [True], 1, "core", None))
+    P.append(("storage-d1-where", ENCS_MAIN + ["strand"], "R", [(1,), (0, 2), (2, 1), (2, 0, 3)], True, where, [False], 1, lvl, None))
+    P.append(("storage-d1-where-flat", ENCS_MAIN + ["strand"], "F", [(L,) for L in range(1, 5)], True, where, [True], 1, lvl, None))
+    P.append(("storage-d1-other-encodings", ENCS_OTHER, "R", [(2, 0, 3)] if q else [(0, 2), (3, 1), (2, 0, 3)], False, few, [False], 1, "core", None))
+    P.append(("storage-d1-other-encodings-flat", ENCS_OTHER, "F", [(3,)] if q else [(0,), (1,), (3,)], False, few, [True], 1, "core", None))
+    d2 = [{"how": "constructor", "dtype": d} for d in (("uint16", "int64") if q else ("int8", "uint16", "int32", "int64"))]
+    P.append(("storage-d2", ["base"], "R", [(2, 0, 3)] if q else [(0, 2), (3, 1), (2, 0, 3)], False, d2, [False], 2, "core", 400 if q else None))
+    P.append(("storage-d2-flat", ["base"], "F", [(4,)] if q else [(2,), (4,)], False, d2, [True], 2, "core", 300 if q else None))
+    return P
+
+
 def run(tier="quick", seed=0):
     import os
     col = Collector("C07", tier, seed,
@@ -1594,9 +1734,17 @@ def run(tier="quick", seed=0):
                     "Plus (run first): independence = (encoding, array function of 1..3 fresh/view operands, one item assignment on the result or "
                     "on an operand; both sides decoded afterwards), exhaustive over the stated functions x shapes x write forms; mixed encodings = "
                     "(ordered pair of different encodings, ==/!=/str_equal/assignment, every right-hand text of length 0..3 over the leading "
-                    "symbols of its alphabet x 1..3 left-hand texts), exhaustive")
+                    "symbols of its alphabet x 1..3 left-hand texts), exhaustive; storage = (encoding, base, integer dtype the raw codes "
+                    "are stored in x way of building it (constructor / concatenate with a uint8 object / np.where), program of 1..2 operations), "
+                    "exhaustive for depth 1 over the stated shapes, depth 2 sampled in the quick tier")
     P = plan(tier)
-    col.bounds = {"encodings": ENCS_MAIN + ENCS_OTHER, "program_len": "0..3", "rows": "0..3 (quick), 0..4 (thorough)", "row_len": "0..3",
+    SP = storage_plan(tier)
+    col.bounds = {"storage": {"dtypes": STORE_DTYPES_QUICK if tier == "quick" else STORE_DTYPES_THOROUGH,
+                              "built_by": ["EncodedArray(np.array(codes, dtype), encoding) / EncodedRaggedArray(that, lengths)",
+                                           "np.concatenate([uint8 object, object of the dtype]) (promotion)", "EncodedArray(np.where(mask, code, code), encoding)"],
+                              "phases": [{"phase": p[0], "encodings": p[1], "kind": p[2], "n_bases": len(p[3]), "stores": len(p[5]), "depth": p[7],
+                                          "last_op_set": p[8], "sample_per_base": p[9]} for p in SP]},
+                  "encodings": ENCS_MAIN + ENCS_OTHER, "program_len": "0..3", "rows": "0..3 (quick), 0..4 (thorough)", "row_len": "0..3",
                   "flat_len": "0..4 (quick), 0..6 (thorough)", "matrix": "every r x c = flat_len reshaping (depth >= 2)",
                   "independence": {"functions": ["concatenate[1..3]", "append", "insert", "where", "zeros_like", "copy", "a[mask]", "a[indices]"],
                                    "operand_histories": ["fresh", "reversed view", "tail view"], "flat_len": "0..3 (quick), 0..5 (thorough)",
@@ -1622,6 +1770,30 @@ def run(tier="quick", seed=0):
         run_xenc(col, ln, rn, form, op, lt, rt, view)
     if debug:
         print("phase %-26s %-12s %7d programs %6.1f s" % ("mixed-encodings", "all pairs", col.evaluations - e0, time.time() - t0))
+    # other storage of the raw codes (small, never cut by the time budget) ---------------------------------------------------------
+    import random
+    srng = random.Random("C07-storage-%s" % seed)           # own stream: the samples of the depth-3 phases below stay what they were
+    for label, encs, kind, shs, two, stores, copies, depth, last, sample in SP:
+        t0, e0 = time.time(), col.evaluations
+        for en in encs:
+            ctx = ctxs[en]
+            for sh in shs:
+                base = fill2(ctx, sh) if two else ctx.fill(sh, salt=0 if en in ENCS_MAIN else 1)
+                if kind == "F":
+                    base = base[0]
+                for store in stores:
+                    for copy in copies:
+                        if depth == 1:
+                            run_program(col, ctx, kind, base, copy, [], store=store)
+                        progs = enumerate_programs(ctx, kind, base, copy, depth, last)
+                        if sample is not None:
+                            progs = list(progs)
+                            if len(progs) > sample:
+                                progs = srng.sample(progs, sample)
+                        for prog in progs:
+                            run_program(col, ctx, kind, base, copy, prog, store=store)
+        if debug:
+            print("phase %-26s %-12s %7d programs %6.1f s" % (label, ",".join(encs)[:12], col.evaluations - e0, time.time() - t0))
     for label, encs, kind, shs, copies, depth, last, sample in P:
         t0, e0 = time.time(), col.evaluations
         for en in encs:
@@ -1663,7 +1835,7 @@ def replay(case):
             return False, "; ".join(f["signature"] + ": " + f["message"] for f in col.failures)
         return True, "ok"
     ctx = Ctx(case["enc"])
-    ok = run_program(col, ctx, case["kind"], case["base"], case.get("copy", False), case["prog"])
+    ok = run_program(col, ctx, case["kind"], case["base"], case.get("copy", False), case["prog"], store=case.get("store"))
     if col.failures:
         return False, "; ".join(f["signature"] + ": " + f["message"] for f in col.failures)
     return True, "ok"
